@@ -111,6 +111,33 @@ def run_witnesses(prop):
     return {"exit": r.returncode, "items": res, "tail": out[-1500:] if r.returncode else ""}
 
 
+def anchor_crosscheck(prop, facts):
+    """thorough tier: which loaded bodies lie in the source ranges that properties.jsonl names as this property's mechanism"""
+    import re
+    out = []
+    try:
+        props = {json.loads(l)["id"]: json.loads(l) for l in open(os.path.join(VERIF, "properties.jsonl"))}
+        for m in props[prop]["anchors"].get("mechanism", []):
+            w = m.get("where", "")
+            f = w.split(":")[0]
+            ranges = re.findall(r"(\d+)-(\d+)", w)
+            hits = []
+            for d, b in facts.bodies.items():
+                sp = b.f.get("span", "")
+                if ("/" + f + ":") not in sp and not sp.startswith(f + ":"):
+                    continue
+                try:
+                    line = int(sp.split(":")[1])
+                except (IndexError, ValueError):
+                    continue
+                if any(int(a) - 25 <= line <= int(z) + 25 for a, z in ranges):
+                    hits.append(d)
+            out.append({"mechanism": m.get("name", "")[:80], "where": w, "bodies_loaded_nearby": len(hits), "examples": sorted(hits)[:4]})
+    except Exception as e:
+        out.append({"error": repr(e)})
+    return out
+
+
 def check(prop, tier, seed):
     t0 = time.time()
     all_targets = tier == "thorough"
@@ -132,6 +159,12 @@ def check(prop, tier, seed):
     extra = {}
     wit_bad = False
     if tier == "thorough":
+        extra["anchor_crosscheck"] = anchor_crosscheck(prop, facts)
+        if hasattr(mod, "sweep"):
+            try:
+                mod.sweep(ctx)
+            except Exception as e:      # the sweep is informational and must never decide the verdict
+                ctx.notes.append("crate sweep failed: %r" % (e,))
         w = run_witnesses(prop)
         if w is not None:
             extra["witnesses"] = w
